@@ -1,5 +1,9 @@
-"""setup_cmd: the framework needs no build; verify it loads /repo and that fixture rules fire."""
+"""setup_cmd: nothing to build (pure stdlib).  Verifies that the analyser can load what it needs."""
 
+from __future__ import annotations
+
+import importlib
+import json
 import os
 
 from . import REPO, VERIF
@@ -8,10 +12,33 @@ from .loader import load_program
 
 def selfcheck():
     P = load_program(REPO)
-    print(f"uxsa selfcheck: parsed {len(P.modules)} modules, {P.n_functions} functions from {REPO}")
-    os.makedirs(os.path.join(VERIF, "evidence"), exist_ok=True)
-    try:
-        from .fixtures_check import run_fixtures
-    except ImportError:
-        return 0
-    return run_fixtures()
+    n_props = 0
+    for i in range(1, 21):
+        p = os.path.join(VERIF, "uxsa", "props", f"c{i:02d}.py")
+        if os.path.exists(p):
+            importlib.import_module(f"uxsa.props.c{i:02d}")
+            n_props += 1
+    n_known = n_fixed = 0
+    for ln in open(os.path.join(VERIF, "known_findings.jsonl")):
+        ln = ln.strip()
+        if ln and not ln.startswith("#"):
+            r = json.loads(ln)
+            if r.get("fixed"):
+                n_fixed += 1
+            else:
+                assert {"property", "rule", "construct", "what"} <= set(r), r
+                n_known += 1
+    n_mut = 0
+    cat = os.path.join(VERIF, "mutants", "catalogue.jsonl")
+    if os.path.exists(cat):
+        for ln in open(cat):
+            ln = ln.strip()
+            if ln and not ln.startswith("#"):
+                r = json.loads(ln)
+                assert {"id", "property", "file", "old", "new", "expect"} <= set(r), r
+                n_mut += 1
+    man = json.load(open(os.path.join(VERIF, "MANIFEST.json")))
+    assert len(man["checks"]) == n_props, (len(man["checks"]), n_props)
+    print(f"uxsa selfcheck: parsed {len(P.modules)} modules, {P.n_functions} functions from {REPO}; {n_props} property modules; "
+          f"{n_known} known findings, {n_fixed} fixed entries; {n_mut} catalogue mutants")
+    return 0
